@@ -32,7 +32,72 @@ type listPkg struct {
 	Export     string
 	Dir        string
 	GoFiles    []string
+	Imports    []string
 	Standard   bool
+}
+
+// package-level variable of a package the translation entry points can reach (import closure), with the
+// functions (other than init) that write it / take its address / call a pointer-receiver method on it
+type stateVar struct {
+	Pkg    string   `json:"pkg"`
+	Name   string   `json:"name"`
+	Type   string   `json:"type"`
+	Writes []string `json:"writes"` // "Func" or "Func:method()" or "Func:&"
+}
+
+var entryPkgs = []string{"logql/logql_transpiler_v2", "logql/logql_parser", "traceql/transpiler", "traceql/parser", "prof/transpiler", "prof/parser"}
+
+// translation entry points: the exported planning / parsing functions of the translation packages, every
+// Process method that returns an ISelect (planners) and every String method that takes a *sql.Ctx (rendering)
+func isEntry(pkg string, fd *ast.FuncDecl, fo *types.Func) bool {
+	sig := fo.Type().(*types.Signature)
+	if fd.Recv == nil {
+		for _, e := range entryPkgs {
+			if pkg == e || strings.HasPrefix(pkg, e+"/") {
+				return ast.IsExported(fd.Name.Name) && (strings.HasPrefix(fd.Name.Name, "Plan") || fd.Name.Name == "Parse" || fd.Name.Name == "Transpile")
+			}
+		}
+		return false
+	}
+	if fd.Name.Name == "Process" && sig.Results().Len() == 2 && strings.HasSuffix(sig.Results().At(0).Type().String(), "sql_select.ISelect") {
+		return true
+	}
+	if fd.Name.Name == "String" && sig.Params().Len() >= 1 && strings.HasSuffix(sig.Params().At(0).Type().String(), "sql_select.Ctx") {
+		return true
+	}
+	return false
+}
+
+func pkgLevelVar(o types.Object) *types.Var {
+	v, ok := o.(*types.Var)
+	if !ok || v.IsField() || v.Pkg() == nil || v.Parent() != v.Pkg().Scope() {
+		return nil
+	}
+	return v
+}
+
+// rootVar: the package-level variable an lvalue / receiver expression is rooted at
+func rootVar(info *types.Info, e ast.Expr) *types.Var {
+	switch x := e.(type) {
+	case *ast.ParenExpr:
+		return rootVar(info, x.X)
+	case *ast.IndexExpr:
+		return rootVar(info, x.X)
+	case *ast.SliceExpr:
+		return rootVar(info, x.X)
+	case *ast.StarExpr:
+		return rootVar(info, x.X)
+	case *ast.SelectorExpr:
+		if v := pkgLevelVar(info.Uses[x.Sel]); v != nil {
+			return v
+		}
+		return rootVar(info, x.X)
+	case *ast.Ident:
+		if o := info.Uses[x]; o != nil {
+			return pkgLevelVar(o)
+		}
+	}
+	return nil
 }
 
 type site struct {
@@ -76,7 +141,7 @@ func main() {
 		os.Exit(2)
 	}
 	repo := os.Args[1]
-	cmd := exec.Command("go", "list", "-e", "-export", "-deps", "-json=ImportPath,Export,Dir,GoFiles,Standard", "./reader/...")
+	cmd := exec.Command("go", "list", "-e", "-export", "-deps", "-json=ImportPath,Export,Dir,GoFiles,Imports,Standard", "./reader/...")
 	cmd.Dir = repo
 	outb, err := cmd.Output()
 	if err != nil && len(outb) == 0 {
@@ -99,6 +164,62 @@ func main() {
 			pkgs = append(pkgs, p)
 		}
 	}
+	imports := map[string][]string{}
+	for _, p := range pkgs {
+		imports[p.ImportPath] = p.Imports
+	}
+	reach := map[string]bool{}
+	var visit func(string)
+	visit = func(ip string) {
+		if reach[ip] || !strings.HasPrefix(ip, prefix) {
+			return
+		}
+		reach[ip] = true
+		for _, d := range imports[ip] {
+			visit(d)
+		}
+	}
+	for _, e := range entryPkgs {
+		visit(prefix + e)
+	}
+	state := map[string]*stateVar{}
+	// call graph over the functions of reader/: caller -> callees (by types.Func.FullName); calls through an
+	// interface go to every method of that name
+	edges := map[string]map[string]bool{}
+	ifaceCalls := map[string]map[string]bool{}
+	byName := map[string][]string{}
+	short := map[string]string{}
+	type pending struct {
+		v       *types.Var
+		fn, how string
+	}
+	notes := map[string][]pending{}
+	var entries []string
+	curFn := ""
+	var note func(v *types.Var, fn, how string)
+	noteLater := func(v *types.Var, fn, how string) {
+		if v != nil && curFn != "" {
+			notes[curFn] = append(notes[curFn], pending{v, fn, how})
+		}
+	}
+	note = func(v *types.Var, fn, how string) {
+		if v == nil || !strings.HasPrefix(v.Pkg().Path(), prefix) {
+			return
+		}
+		k := v.Pkg().Path() + "." + v.Name()
+		sv := state[k]
+		if sv == nil {
+			sv = &stateVar{Pkg: strings.TrimPrefix(v.Pkg().Path(), prefix), Name: v.Name(), Type: types.TypeString(v.Type(), func(p *types.Package) string { return p.Name() })}
+			state[k] = sv
+		}
+		w := fn + how
+		for _, x := range sv.Writes {
+			if x == w {
+				return
+			}
+		}
+		sv.Writes = append(sv.Writes, w)
+	}
 	fset := token.NewFileSet()
 	imp := importer.ForCompiler(fset, "gc", func(path string) (io.ReadCloser, error) {
 		f := exports[path]
@@ -120,7 +241,8 @@ func main() {
 			}
 			files = append(files, f)
 		}
-		info := &types.Info{Types: map[ast.Expr]types.TypeAndValue{}, Uses: map[*ast.Ident]types.Object{}, Selections: map[*ast.SelectorExpr]*types.Selection{}}
+		info := &types.Info{Types: map[ast.Expr]types.TypeAndValue{}, Uses: map[*ast.Ident]types.Object{}, Defs: map[*ast.Ident]types.Object{},
+			Selections: map[*ast.SelectorExpr]*types.Selection{}}
 		conf := types.Config{Importer: imp, Error: func(err error) {}}
 		if _, err := conf.Check(p.ImportPath, fset, files, info); err != nil {
 			// a package that does not compile is not part of the reader binary; analysed with partial types
@@ -144,6 +266,20 @@ func main() {
 				}
 				nfn++
 				name := funcName(fd)
+				isInit := fd.Recv == nil && fd.Name.Name == "init"
+				curFn = ""
+				if fo, ok := info.Defs[fd.Name].(*types.Func); ok {
+					curFn = fo.FullName()
+					short[curFn] = strings.TrimPrefix(p.ImportPath, prefix) + ":" + name
+					edges[curFn] = map[string]bool{}
+					ifaceCalls[curFn] = map[string]bool{}
+					if fd.Recv != nil {
+						byName[fd.Name.Name] = append(byName[fd.Name.Name], curFn)
+					}
+					if isEntry(strings.TrimPrefix(p.ImportPath, prefix), fd, fo) {
+						entries = append(entries, curFn)
+					}
+				}
 				usesSQL := p.ImportPath == sqlPkg
 				var rs []*ast.RangeStmt
 				ast.Inspect(fd.Body, func(n ast.Node) bool {
@@ -152,7 +288,25 @@ func main() {
 						if o := info.Uses[x]; o != nil && o.Pkg() != nil && o.Pkg().Path() == sqlPkg {
 							usesSQL = true
 						}
+						if fo, ok := info.Uses[x].(*types.Func); ok && curFn != "" {
+							if rcv := fo.Type().(*types.Signature).Recv(); rcv != nil && types.IsInterface(rcv.Type()) {
+								ifaceCalls[curFn][fo.Name()] = true
+							} else {
+								edges[curFn][fo.FullName()] = true
+							}
+						}
 					case *ast.CallExpr:
+						if se, ok := x.Fun.(*ast.SelectorExpr); ok && !isInit {
+							if sel := info.Selections[se]; sel != nil && sel.Kind() == types.MethodVal {
+								if f, ok := sel.Obj().(*types.Func); ok {
+									if rcv := f.Type().(*types.Signature).Recv(); rcv != nil {
+										if _, ptr := rcv.Type().(*types.Pointer); ptr {
+											noteLater(rootVar(info, se.X), name, ":"+se.Sel.Name+"()")
+										}
+									}
+								}
+							}
+						}
 						if se, ok := x.Fun.(*ast.SelectorExpr); ok && se.Sel.Name == "SetSetting" {
 							// a SetSetting method that passes its own arguments on is an implementation of the
 							// interface (UnionSelect), not a place where a setting originates
@@ -161,6 +315,20 @@ func main() {
 							} else {
 								setCalls = append(setCalls, site{File: rel, Func: name, Expr: exprText(fset, x)})
 							}
+						}
+					case *ast.AssignStmt:
+						if !isInit {
+							for _, l := range x.Lhs {
+								noteLater(rootVar(info, l), name, "")
+							}
+						}
+					case *ast.IncDecStmt:
+						if !isInit {
+							noteLater(rootVar(info, x.X), name, "")
+						}
+					case *ast.UnaryExpr:
+						if !isInit && x.Op == token.AND {
+							noteLater(rootVar(info, x.X), name, ":&")
 						}
 					case *ast.RangeStmt:
 						if tv, ok := info.Types[x.X]; ok {
@@ -196,6 +364,33 @@ func main() {
 			}
 		}
 	}
+	// functions reachable from the translation entry points
+	reachFn := map[string]bool{}
+	var walk func(string)
+	walk = func(f string) {
+		if reachFn[f] {
+			return
+		}
+		reachFn[f] = true
+		for g := range edges[f] {
+			if _, ok := edges[g]; ok {
+				walk(g)
+			}
+		}
+		for m := range ifaceCalls[f] {
+			for _, g := range byName[m] {
+				walk(g)
+			}
+		}
+	}
+	for _, e := range entries {
+		walk(e)
+	}
+	for f := range reachFn {
+		for _, n := range notes[f] {
+			note(n.v, short[f], n.how)
+		}
+	}
 	less := func(a, b site) bool {
 		if a.File != b.File {
 			return a.File < b.File
@@ -208,6 +403,18 @@ func main() {
 	sort.Slice(setCalls, func(i, j int) bool { return less(setCalls[i], setCalls[j]) })
 	sort.Slice(forwards, func(i, j int) bool { return less(forwards[i], forwards[j]) })
 	sort.Slice(ranges, func(i, j int) bool { return less(ranges[i], ranges[j]) })
+
+	var states []*stateVar
+	for _, sv := range state {
+		sort.Strings(sv.Writes)
+		states = append(states, sv)
+	}
+	sort.Slice(states, func(i, j int) bool {
+		if states[i].Pkg != states[j].Pkg {
+			return states[i].Pkg < states[j].Pkg
+		}
+		return states[i].Name < states[j].Name
+	})
 
 	var b strings.Builder
 	b.WriteString("(* GENERATED by translate/gen_mapranges from the Go sources under reader/ -- do not edit.\n")
@@ -228,12 +435,23 @@ func main() {
 		}
 		fmt.Fprintf(&b, "\n  (%s, %s, %s, %s)", coqStr(s.File), coqStr(s.Func), coqStr(s.Expr), coqStr(s.Uses))
 	}
+	b.WriteString("].\n\n(* package-level variables under reader/ that a function reachable from the translation entry points\n")
+	b.WriteString("   (Parse/Plan*/Transpile, every planner Process, every SQL String method; calls through interfaces go to every\n")
+	b.WriteString("   method of that name) assigns, takes the address of, or calls a pointer-receiver method on:\n")
+	b.WriteString("   (package, variable, type) *)\n")
+	b.WriteString("Definition translation_package_state : list (string * string * string) := [")
+	for i, sv := range states {
+		if i > 0 {
+			b.WriteString(";")
+		}
+		fmt.Fprintf(&b, "\n  (%s, %s, %s)", coqStr(sv.Pkg), coqStr(sv.Name), coqStr(sv.Type))
+	}
 	b.WriteString("].\n")
 	if err := os.WriteFile(os.Args[2], []byte(b.String()), 0o644); err != nil {
 		panic(err)
 	}
 	js, _ := json.MarshalIndent(map[string]interface{}{"set_setting_calls": setCalls, "set_setting_forwarders": forwards, "other_map_ranges_in_sql_packages": others, "sql_map_ranges": ranges,
-		"packages": npk, "functions": nfn, "sql_building_functions": nsqlfn, "packages_not_compiling": unchecked}, "", " ")
+		"translation_package_state": states, "translation_entry_functions": len(entries), "translation_reachable_functions": len(reachFn), "packages": npk, "functions": nfn, "sql_building_functions": nsqlfn, "packages_not_compiling": unchecked}, "", " ")
 	if err := os.WriteFile(os.Args[3], js, 0o644); err != nil {
 		panic(err)
 	}
